@@ -71,12 +71,12 @@ M = {
     'nb01_wait_min_without_bufpos': ('netbuf/netbuf_read.c', 'C07',
         "\t\t    R->buflen - R->datalen, R->bufpos + len - R->datalen,\n\t\t    callback_read, R)) == NULL)",
         "\t\t    R->buflen - R->datalen, len - R->datalen,\n\t\t    callback_read, R)) == NULL)"),
-    'nb02_compact_condition': ('netbuf/netbuf_read.c', 'C07',
-        "\tif (R->buflen - R->bufpos < len) {", "\tif (R->buflen - R->datalen < len) {"),
+    'nb02_compact_moves_too_much': ('netbuf/netbuf_read.c', 'C07',
+        "\t\tmemmove(R->buf, &R->buf[R->bufpos], R->datalen - R->bufpos);", "\t\tmemmove(R->buf, &R->buf[R->bufpos], R->datalen);"),
     'nb03_grow_copies_too_much': ('netbuf/netbuf_read.c', 'C07',
         "\tmemcpy(nbuf, &R->buf[R->bufpos], R->datalen - R->bufpos);", "\tmemcpy(nbuf, &R->buf[R->bufpos], R->datalen);"),
-    'nb04_writer_failed_reset': ('netbuf/netbuf_write.c', 'C07',
-        "\tif ((size_t)(writelen) != WB->datalen)\n\t\tW->failed = 1;", "\tif ((size_t)(writelen) != WB->datalen)\n\t\tW->failed = (writelen == -1);"),
+    'nb04_writer_error_not_failure': ('netbuf/netbuf_write.c', 'C07',
+        "\tif ((size_t)(writelen) != WB->datalen)\n\t\tW->failed = 1;", "\tif (writelen == 0)\n\t\tW->failed = 1;"),
     'nb05_writer_sends_after_fail': ('netbuf/netbuf_write.c', 'C07',
         "\t/* If we've failed, don't try to do anything more. */\n\tif (W->failed)\n\t\treturn (0);\n", ""),
     'nb06_writer_head_insert': ('netbuf/netbuf_write.c', 'C07',
